@@ -63,6 +63,8 @@ type Walker struct {
 	MaxPaths  int
 	MaxDepth  int
 	ForceBool bool // decide bool-typed results at return
+	Assume     map[string]IntervalSet // initial regions of symbolic integers (e.g. one struct field per walk)
+	AssumeBool map[string]bool
 	// hooks
 	CallName func(callee *ssa.Function, name string) (string, bool, bool)
 	OnCall func(w *Walker, name string, args []*Term, call *ssa.CallCommon, instr ssa.Instruction) (*Term, bool)
@@ -110,7 +112,7 @@ func (w *Walker) Walk(fn *ssa.Function, args []*Term, bindings []*Term) []Path {
 	for {
 		w.pos = 0
 		w.alts = w.alts[:0]
-		w.state = newPathState()
+		w.state = w.initialState()
 		w.events = nil
 		w.decisions = nil
 		w.cellN = 0
@@ -154,6 +156,17 @@ func (w *Walker) Walk(fn *ssa.Function, args []*Term, bindings []*Term) []Path {
 		w.script = append(w.script[:i:i], w.script[i]+1)
 	}
 	return paths
+}
+
+func (w *Walker) initialState() *PathState {
+	ps := newPathState()
+	for k, v := range w.Assume {
+		ps.Ints[k] = v
+	}
+	for k, v := range w.AssumeBool {
+		ps.Bools[k] = v
+	}
+	return ps
 }
 
 func (w *Walker) choose(n int, desc string) int {
@@ -366,7 +379,7 @@ func update(v *Term, path []string, nv *Term) *Term {
 func (w *Walker) load(addr *Term, instr ssa.Instruction, fn *ssa.Function, depth int) *Term {
 	if addr.Op != "ptr" {
 		if addr.IsNilConst() {
-			w.abort("panic", "nil dereference")
+			w.abort("panic", "nil dereference at "+w.P.Pos(instr.Pos()))
 		}
 		c := w.symCell(addr)
 		return c.Val
@@ -379,6 +392,9 @@ func (w *Walker) load(addr *Term, instr ssa.Instruction, fn *ssa.Function, depth
 }
 
 func (w *Walker) store(addr, v *Term, instr ssa.Instruction, fn *ssa.Function, depth int) {
+	if addr.IsNilConst() {
+		w.abort("panic", "store through nil pointer at "+w.P.Pos(instr.Pos()))
+	}
 	if addr.Op != "ptr" {
 		c := w.symCell(addr)
 		w.event(Event{Kind: "store", Name: addr.String(), Args: []*Term{addr, v}, Pos: instr.Pos(), Instr: instr, Fn: fn, Depth: depth})
@@ -387,6 +403,16 @@ func (w *Walker) store(addr, v *Term, instr ssa.Instruction, fn *ssa.Function, d
 	}
 	if addr.Cell.Sym {
 		w.event(Event{Kind: "store", Name: addr.String(), Args: []*Term{addr, v}, Pos: instr.Pos(), Instr: instr, Fn: fn, Depth: depth})
+		for _, s := range addr.Path {
+			if strings.HasPrefix(s, "#") {
+				if _, err := strconv.Atoi(s[1:]); err != nil {
+					return // store through a symbolic index into caller memory: recorded as an event only
+				}
+			}
+		}
+		if len(addr.Path) > 0 && strings.HasPrefix(addr.Path[0], "#") {
+			return // element stores into caller-owned slices are events; later reads stay symbolic
+		}
 	}
 	addr.Cell.Val = update(addr.Cell.Val, addr.Path, v)
 }
